@@ -50,22 +50,33 @@ pub open spec fn opt_bound(p: QPart, v: Option<TokenStream>) -> bool {
         None => ts_text(x) == "None"@,
     })
 }
+/// `out` is `x` spliced alone among harmless tokens (`* x`, `x . clone ( )`, `( x )`)
+pub open spec fn unwrap1(out: TokenStream) -> Option<TokenStream> {
+    if ts_subs(out).len() == 1 && lits_all(out, |y: Seq<char>| harmless_tok(y)) {
+        match ts_subs(out)[0] { QPart::Sub(x) => Some(x), _ => None::<TokenStream> }
+    } else { None::<TokenStream> }
+}
+/// `ok` holds of `out`, or of what `out` wraps (up to two levels: the call may be built first and dereferenced / cloned after)
+pub open spec fn up_to_2_wrappers(out: TokenStream, ok: spec_fn(TokenStream) -> bool) -> bool {
+    ok(out) || (unwrap1(out) matches Some(x) && (ok(x) || (unwrap1(x) matches Some(y) && ok(y))))
+}
 pub open spec fn increasing(c: Seq<int>) -> bool { forall|i: int, j: int| 0 <= i < j < c.len() ==> c[i] < c[j] }
 
-pub open spec fn index_tokens_ok(out: TokenStream, o: TokenStream, i: TokenStream, ty: IrType) -> bool {
+/// HELPER ( container , index ): the call itself
+pub open spec fn index_call(out: TokenStream, module: Seq<char>, name: Seq<char>, o: TokenStream, i: TokenStream) -> bool {
     let s = ts_subs(out);
+    calls_helper(out, module, name) && s.len() == 2 && is_wrap(s[0], o) && is_wrap(s[1], i) && increasing(ts_cuts(out))
+}
+pub open spec fn index_tokens_ok(out: TokenStream, o: TokenStream, i: TokenStream, ty: IrType) -> bool {
     match strip_ref(ty) {
-        IrType::String | IrType::FrozenStr =>
-            calls_helper(out, "strings"@, "str_index"@) && s.len() == 2 && is_wrap(s[0], o) && is_wrap(s[1], i) && increasing(ts_cuts(out)),
-        IrType::Dict(_, _) =>
-            calls_helper(out, "collections"@, "dict_get"@) && s.len() == 2 && is_wrap(s[0], o) && is_wrap(s[1], i) && increasing(ts_cuts(out)),
-        IrType::List(_) =>
-            calls_helper(out, "collections"@, "list_get"@) && s.len() == 2 && is_wrap(s[0], o) && is_wrap(s[1], i) && increasing(ts_cuts(out)),
+        IrType::String | IrType::FrozenStr => up_to_2_wrappers(out, |x: TokenStream| index_call(x, "strings"@, "str_index"@, o, i)),
+        IrType::Dict(_, _) => up_to_2_wrappers(out, |x: TokenStream| index_call(x, "collections"@, "dict_get"@, o, i)),
+        IrType::List(_) => up_to_2_wrappers(out, |x: TokenStream| index_call(x, "collections"@, "list_get"@, o, i)),
         _ => true,
     }
 }
 
-pub open spec fn slice_tokens_ok(out: TokenStream, t: TokenStream, ty: IrType, a: Option<TokenStream>, b: Option<TokenStream>, c: Option<TokenStream>) -> bool {
+pub open spec fn slice_call(out: TokenStream, t: TokenStream, ty: IrType, a: Option<TokenStream>, b: Option<TokenStream>, c: Option<TokenStream>) -> bool {
     let s = ts_subs(out);
     // HELPER ( target , start , end , step ) in that order
     &&& s.len() == 4 && increasing(ts_cuts(out))
@@ -74,10 +85,12 @@ pub open spec fn slice_tokens_ok(out: TokenStream, t: TokenStream, ty: IrType, a
     &&& (strip_ref(ty) is List ==> calls_helper(out, "collections"@, "list_slice"@))
     &&& (calls_helper(out, "strings"@, "str_slice"@) || calls_helper(out, "collections"@, "list_slice"@))
 }
+pub open spec fn slice_tokens_ok(out: TokenStream, t: TokenStream, ty: IrType, a: Option<TokenStream>, b: Option<TokenStream>, c: Option<TokenStream>) -> bool {
+    up_to_2_wrappers(out, |x: TokenStream| slice_call(x, t, ty, a, b, c))
+}
 
 pub open spec fn list_get_mut_tokens_ok(out: TokenStream, o: TokenStream, i: TokenStream) -> bool {
-    let s = ts_subs(out);
-    calls_helper(out, "collections"@, "list_get_mut"@) && s.len() == 2 && is_wrap(s[0], o) && is_wrap(s[1], i) && increasing(ts_cuts(out))
+    up_to_2_wrappers(out, |x: TokenStream| index_call(x, "collections"@, "list_get_mut"@, o, i))
 }
 
 /// literal tokens of a range call: harmless ones and the defaults 0 / 1
